@@ -3,6 +3,7 @@ import RbV.Spec.Occ
 import RbV.Spec.QGram
 import RbV.Spec.KChain
 import RbV.Model.QGramIter
+import RbV.Model.QGramMatches
 /-! Driver for property C19 (line protocol → verdict).
 
 ```
@@ -127,6 +128,9 @@ def checkQuery (A : List Nat) (q mc : Nat) (text : List Nat) (qu : Query) (res :
     let H := hits mc q pat text
     let negdiag := H.any fun h => h.1 > h.2
     let exp := sortRecs ((matchesRef mc q minc pat text).map fun r => [r.1, r.2.1, r.2.2.1, r.2.2.2.1, r.2.2.2.2])
+    -- mirror model of the Rust loop, proved to report the same records (Thm.C19.matches_model_refines)
+    let mdl := sortRecs ((matchesModel mc q minc pat text).map fun r => [r.1, r.2.1, r.2.2.1, r.2.2.2.1, r.2.2.2.2])
+    if mdl ≠ exp then (some (false, "BADOP model-vs-reference"), []) else
     if panicked then (classify negdiag, []) else
     match parseRecs 5 res with
     | some l => if sortRecs l = exp then (none, (if exp.isEmpty then [] else ["m-hit"]) ++ (if negdiag then ["negdiag-ok"] else [])
@@ -168,7 +172,7 @@ def verdictIdx (ah qs mcs th qus out : String) : String :=
     let outcomes := (queries.zip ress).map fun (qu, r) => checkQuery A q mc text qu r
     let bad := outcomes.filterMap (·.1)
     match bad.find? (fun x => !x.1) with
-    | some (_, msg) => "diff " ++ msg
+    | some (_, msg) => if msg.startsWith "BADOP" then "bad-op " ++ msg else "diff " ++ msg
     | none =>
       match bad.head? with
       | some (_, msg) => "reject " ++ msg
